@@ -219,3 +219,13 @@ fn c13_sender_ack_none() {
 fn c13_sender_ack_weird_negative() {
     sender_step::<{ i32::MIN }>();
 }
+
+// constructors shared with the Manager harnesses (snapshot_manager.rs)
+impl Storage {
+    pub(crate) fn verif_storage_10_5(v10: i32, v5: i32) -> Storage {
+        storage_10_5(v10, v5, None)
+    }
+    pub(crate) fn verif_update_delta(d: i32) -> Delta {
+        update_delta(d)
+    }
+}
